@@ -167,7 +167,7 @@ prop(
 
 prop(
     "C12",
-    contract_modules=["contracts.c12"],
+    contract_modules=["contracts.c12", "contracts.c12g"],
     bcc="c12",
     level="other",
     claimed=False,
@@ -338,8 +338,15 @@ _TEXTS = {
             "centred cell, molecules are wrapped as wholes with the centroid inside the cell, frame i uses cell i -- for three bond topologies / two molecules, symbolic "
             "positions and lower-triangular cells. Bounded only: image_frame's anchor clustering, other numberings (known finding), float32, the compiled extension itself "
             "(Cython's translation is trusted and the .pxi cannot be rebuilt here)."),
-    "C12": (_T_PY, "Deductive: Topology.select is a pure observer of the current topology (no state added; same answer after edit histories); select_expression embeds "
-            "the parser's source. Bounded only: the grammar, precedence and keyword tables (grammar enumeration against a reference evaluator)."),
+    "C12": (_T_PY, "Deductive, by structural induction over expression trees (one contract per constructor of mdtraj/core/selection.py, operands abstract, the atom symbolic): "
+            "every documented keyword and alias denotes its documented attribute; and/or (2 and 3 operands, both spellings, mixed), not, the six comparisons in both spellings, "
+            "range (low <= x <= high), implicit equality and implicit lists, =~ (re.match(pattern, attribute) is not None), literals (numbers, bare words, single/double quotes, quotes "
+            "inside quotes) denote their documented meaning through the REAL pipeline (token class .ast(), _RewriteNames, compile, ast.unparse), and the returned source denotes the same; "
+            "literals as truth values / compared with literals / in a range / alone and pyparsing's ParseException are rejected with ValueError; the grammar the real _initialize hands "
+            "to pyparsing has the five precedence levels tightest-first (=~, comparisons, not, and, or) with the documented spellings, arities, associativity and parse actions, no "
+            "spelling shadowed by an earlier prefix, range tried before the implicit list, operator words excluded from literals; Topology.select is a pure observer of the current "
+            "topology (same answer after edit histories) and select_expression embeds the parser's source. Assumed: pyparsing's documented semantics (infixNotation, MatchFirst, Keyword, "
+            "Group) -- the step from the string to the tree is covered by the bounded grammar enumeration against a reference evaluator only."),
     "C13": (_T_C, "Deductive: asa_frame for symbolic atom and point counts (five loop invariants): the neighbour list is exactly the overlapping other atoms; a sphere point "
             "is rejected iff strictly inside a listed atom, accepted iff inside no other atom (prefilter soundness lemma); areas[i] = 4 pi R_i^2/P * #accessible points, "
             "independent of the old buffer; unselected atoms untouched; sasa: group value = sum over the selected atoms of the group, per frame row; golden-spiral points are "
